@@ -58,6 +58,21 @@ def gen_eval(tier, R):
             for m in small[:6]:
                 for c in small[6:12]:
                     case(f"(ter {o} {a} {m} {c})")
+    # arithmetic and comparison on numbers of both signs: whole, fractional, tiny, huge, signed zeros, non-finite - all pairs (sign rules of div / mod,
+    # rounding direction, cancellation), plus numeric strings of both signs against numbers for the comparison and equality operators
+    signed = [0.0, -0.0, 1.0, -1.0, 2.0, -2.0, 3.0, -3.0, 0.5, -0.5, 7.0, -7.0, 7.5, -7.5, 2.5, -2.5, 10.0, -10.0, 0.1, -0.1, 6.0, -6.0, 1e16, -1e16, 2.0**53, -(2.0**53), 5e-324, -5e-324, 1e308, -1e308, INF, -INF, NAN]
+    if tier == 'thorough':
+        signed += [R.choice([-1, 1]) * R.choice([R.uniform(0, 10), float(R.randint(0, 1000)), R.uniform(0, 1e-3), R.uniform(1e15, 1e17)]) for _ in range(60)]
+    for o in ["plus", "minus", "multiply", "divide", "div", "mod", "greater", "greaterEqual", "less", "lessEqual", "equal", "notEqual"]:
+        for x in signed:
+            for y in signed:
+                case(f"(bin {o} (lit {num(x)}) (lit {num(y)}))")
+    sstr = ["-1", "-0.5", "-7", "+7", "-7.5", "7", "-0", "-inf", "-1e3", " -1", "-", "--1"]
+    for o in ["greater", "greaterEqual", "less", "lessEqual", "equal", "notEqual", "plus", "minus"]:
+        for t in sstr:
+            for y in signed[:20]:
+                case(f"(bin {o} (lit {s(t)}) (lit {num(y)}))")
+                case(f"(bin {o} (lit {num(y)}) (lit {s(t)}))")
     for k in range(4):
         for pos in range(k + 1):
             elems = [f"(call {s('echo')} (lit {num(float(i))}))" for i in range(k)]
@@ -168,6 +183,35 @@ def gen_opt(tier, R, kind='opt'):
                 c = f"(call {s(n)} " + " ".join(lits) + ")"
                 for e in (c, f"(bin plus {c} (lit {num(1.0)}))", f"(arr {c} (lit (b 1)))", f"(ter ternaryCondition (lit (b 1)) {c} (lit (b 0)))"):
                     out.append(f"({kind} _ {env([('x', num(2.0))], OPT_FNS_S)} {e})")
+    # the classic unsound rewrites of an algebraic simplifier: identities and re-association that hold in exact arithmetic or for one operand kind only,
+    # each under bindings of every kind (NaN, signed zeros, infinities, values where rounding shows, numeric and other strings, Booleans, arrays, unbound)
+    X, Y = f"(var {s('x')})", f"(var {s('y')})"
+    L = lambda v: f"(lit {v})"
+    consts = [num(v) for v in (0.0, -0.0, 1.0, -1.0, 2.0, 0.1, 0.2, 0.3, 1e16, 1e308, -1e308, 1e-16)] + [s(""), s("a"), b(True), b(False), "(a)"]
+    idents = []
+    for o in ["plus", "minus", "multiply", "divide", "div", "mod", "and", "or", "xor", "equal", "notEqual", "less", "lessEqual", "greater", "greaterEqual"]:
+        for c in consts:
+            idents += [f"(bin {o} {X} {L(c)})", f"(bin {o} {L(c)} {X})"]
+        idents += [f"(bin {o} {X} {X})", f"(bin {o} {X} {Y})"]
+    for u in ["not", "minus"]:
+        idents += [f"(un {u} (un {u} {X}))", f"(un {u} (bin and {X} {Y}))", f"(un {u} (bin less {X} {Y}))"]
+    arith = ["plus", "minus", "multiply", "divide"]
+    fl = [num(v) for v in (0.1, 0.2, 0.3, 1.0, 1e16, 1e308, -1e308, 3.0)]
+    fsel = fl if tier == 'thorough' else fl[:6]
+    for o1 in arith:
+        for o2 in arith:
+            for c1 in fsel:
+                for c2 in fsel:
+                    idents += [f"(bin {o2} (bin {o1} {X} {L(c1)}) {L(c2)})", f"(bin {o1} {L(c1)} (bin {o2} {X} {L(c2)}))", f"(bin {o2} (bin {o1} {L(c1)} {X}) {L(c2)})", f"(bin {o1} {L(c1)} (bin {o2} {L(c2)} {X}))"]
+    for o in ["plus"]:
+        for c1 in (s("a"), s(""), "(a)", f"(a {num(1.0)})"):
+            for c2 in (s("b"), s(""), "(a)", f"(a {num(2.0)})"):
+                idents += [f"(bin {o} (bin {o} {X} {L(c1)}) {L(c2)})", f"(bin {o} {L(c1)} (bin {o} {L(c2)} {X}))"]
+    xb = [num(v) for v in (0.1, 1e16, -1e308, 0.0, -0.0, NAN, INF, 1.0, 3.0)] + [s("a"), s("10"), s(""), b(True), b(False), "(a)", None]
+    for e in idents:
+        for xv in (xb if tier == 'thorough' else R.sample(xb, 6)):
+            binds = ([('x', xv)] if xv is not None else []) + [('y', R.choice(xb[:-1]))]
+            out.append(f"({kind} _ {env(binds, OPT_FNS_S)} {e})")
     N = 12000 if tier == 'quick' else 500000
     i = 0
     while i < N:
